@@ -81,11 +81,19 @@ class Model:
         files = sorted(glob.glob(os.path.join(self.src, "*.py")))
         if not files:
             raise AnalysisError(f"no python sources under {self.src}")
+        import warnings as _w
+        with _w.catch_warnings():
+            _w.simplefilter("ignore")
+            try:
+                renames = pat.private_field_renames([ast.parse(open(f, encoding="utf-8").read()) for f in files])
+            except SyntaxError:
+                renames = None
+        self.field_renames = renames
         for f in files:
             mod = os.path.basename(f)[:-3]
             text = open(f, encoding="utf-8").read()
             self.digest.update(text.encode())
-            tree = pat.desugar_match(ast.parse(text, filename=f))
+            tree = pat.desugar_match(ast.parse(text, filename=f), renames)
             self.modules[mod] = tree
             self.paths[mod] = f
             for n in tree.body:
@@ -293,6 +301,42 @@ class Typer:
         if q not in self._inf:
             self._inf[q] = Infer(self, fn).run()
         return self._inf[q]
+
+    def derived_fields(self):
+        """types of the (private) fields the frozen table does not name, read off the stores in constructors and setters:
+        `self.F = Cls(..)`, `self.F = copy(x)` / `x` with an annotated parameter x -- so that a renamed private field
+        keeps its type"""
+        d = self.__dict__.get("_derived_fields")
+        if d is not None:
+            return d
+        d = self.__dict__["_derived_fields"] = {}
+        for q, fn in self.m.funcs.items():
+            if not fn.cls or not fn.params:
+                continue
+            selfn = fn.params[0]
+            ann = {a.arg: self.ann_type(a.annotation) for a in fn.node.args.posonlyargs + fn.node.args.args}
+            for st in ast.walk(fn.node):
+                if isinstance(st, ast.Assign) and len(st.targets) == 1 and isinstance(st.targets[0], ast.Attribute) \
+                        and isinstance(st.targets[0].value, ast.Name) and st.targets[0].value.id == selfn:
+                    name = st.targets[0].attr
+                    if name.startswith("__") and not name.endswith("__"):
+                        name = f"_{fn.cls}{name}"
+                    if (fn.cls, name) in FIELD_TYPES:
+                        continue
+                    v = st.value
+                    while isinstance(v, ast.Call) and isinstance(v.func, ast.Name) and v.func.id in ("copy", "deepcopy") and v.args:
+                        v = v.args[0]
+                    t = UNK
+                    if isinstance(v, ast.Call) and isinstance(v.func, ast.Name) and v.func.id in self.m.classes:
+                        t = v.func.id
+                    elif isinstance(v, ast.Name) and ann.get(v.id, UNK) != UNK:
+                        t = ann[v.id]
+                    elif isinstance(v, ast.Call) and isinstance(v.func, ast.Name) and v.func.id in ("tuple", "list") and v.args \
+                            and isinstance(v.args[0], ast.Name) and ann.get(v.args[0].id, UNK) != UNK:
+                        t = ann[v.args[0].id]
+                    if t != UNK and UNK not in str(t):
+                        d.setdefault((fn.cls, name), t)
+        return d
 
     def ret_type(self, fn):
         """the annotated return type; when the annotation says nothing, the join of what the body returns / yields
@@ -617,6 +661,8 @@ class Infer:
                 for k in [c] + self.m.mro(c)[1:] + self.m.subclasses(c):
                     if (k, name) in FIELD_TYPES:
                         res.append(FIELD_TYPES[(k, name)])
+                    elif (k, name) in self.t.derived_fields():
+                        res.append(self.t.derived_fields()[(k, name)])
         if res:
             return join_types(res)
         if rt == EXT:
